@@ -8,6 +8,8 @@ import Props.C04_xmlattrs
 #print axioms SpyneModel.Props.C04hier.hier_request_sound
 #print axioms SpyneModel.Props.C04hier.facts02_file
 #print axioms SpyneModel.Props.C04hier.hier_file_object_form_sound
+#print axioms SpyneModel.Props.C04hier.facts02_number_kinds
+#print axioms SpyneModel.Props.C04hier.facts02_nofreq_kinds
 #print axioms SpyneModel.Props.C04hier.facts02_retag
 #print axioms SpyneModel.Props.C04hier.hier_wrapper_retag_rejected
 #print axioms SpyneModel.Props.C04xml.xml_decode_sound
